@@ -175,8 +175,7 @@ impl<B: AsRef<[usize]> + BitLength, C: AsRef<[BlockCounters]>> Select9<Rank9<B, 
         for (i, word) in rank9.bits.as_ref().iter().copied().enumerate() {
             // Bits beyond the length (in the last word, or in further words of
             // the backend) are arbitrary, so they must not be counted
-            let ones_in_word =
-                (word.count_ones() as usize).min(rank9.num_ones() - curr_num_ones);
+            let ones_in_word = (word.count_ones() as usize).min(rank9.num_ones() - curr_num_ones);
 
             while curr_num_ones + ones_in_word > next_quantum {
                 let in_word_index = word.select_in_word(next_quantum - curr_num_ones);
